@@ -335,6 +335,11 @@ class BP(EvalObj):
     def __bool__(self):
         return self.value != 0
 
+    def gcd(self, o):
+        if not isinstance(o, BP):
+            raise TypeError("operand")
+        return BP(pgcd(self.value, o.value))
+
     def evaluate(self, x):
         # value of the polynomial at a field element (model of the repository's method for field elements)
         if not isinstance(x, FieldElem):
